@@ -14,7 +14,9 @@
 #include <algorithm>
 #include <cmath>
 #include <functional>
+#include <memory>
 #include <stdexcept>
+#include <unordered_map>
 #include <utility>
 #include <vector>
 
@@ -64,7 +66,24 @@ inline Func zero() {
 }
 inline Func of_diagram(const Diagram& dg) {
   Func f;
-  f.value = [dg](unsigned k, R t) { return lambda(dg, k, t); };
+  // same definition as lambda(); the sorted tent values at a dyadic abscissa (multiple of 1/64) are kept in a table
+  // owned by this Func, because the checks evaluate the same few hundred points again and again
+  auto cache = std::make_shared<std::unordered_map<long long, std::vector<R>>>();
+  f.value = [dg, cache](unsigned k, R t) -> R {
+    if (k >= dg.size()) return 0;
+    R s = t * 64;
+    long long key = (long long)(s);
+    if (R(key) != s) return lambda(dg, k, t);
+    auto it = cache->find(key);
+    if (it == cache->end()) {
+      std::vector<R> v;
+      v.reserve(dg.size());
+      for (auto& bd : dg) v.push_back(tent(bd.first, bd.second, t));
+      std::sort(v.begin(), v.end(), std::greater<R>());
+      it = cache->emplace(key, std::move(v)).first;
+    }
+    return it->second[k];
+  };
   f.levels = unsigned(dg.size());
   if (!dg.empty()) {
     f.lo = dg[0].first;
